@@ -228,7 +228,8 @@ def run(run):
                         except Exception:
                             add({"ev": "Rescale", "c": c, "soft1": soft, "soft2": soft, "hard1": hard1, "hard2": [], "raised": True}, "MinSumLDPCDecoder", dict(opt, iters=iters))
     run.log("%d events" % len(evs))
-    mism = tv.validate_sharded(run, "Trace_Soft", evs, (lambda e: e["ev"] == "Code"), name="TV C10", max_events=(1500 if run.tier == "quick" else 4000), jobs=8)
+    mism = tv.validate_sharded(run, "Trace_Soft", evs, (lambda e: e["ev"] == "Code"), name="TV C10", max_events=3000, jobs=10,
+                                cost=(lambda e: (2 ** max(0, len(e["y"]) - 5) if e["ev"] == "Wagner" else (4 if e["ev"] in ("BpExact", "MinSum") else 1))))
     pr = getattr(run, "last_prints", [])
     run.extra["wagner_inputs_excluded_as_ties"] = len([p for p in pr if isinstance(p, list) and p and p[0] == "TIE"])
     run.extra["min_sum_inputs_in_sub_offset_corner"] = len([p for p in pr if isinstance(p, list) and p and p[0] == "SUBOFFSET"])
